@@ -54,9 +54,31 @@ fn main() {
         );
         for (o, path) in r.unsound.iter().take(10) {
             println!("UNSOUND (Shuttle produces, contracts forbid): {} via {:?}", osc::describe(o), path);
+            let pr = std::sync::Arc::new(serde_json::from_str::<prog::Prog>(&std::fs::read_to_string(&args[1]).unwrap()).unwrap());
+            let rr = exec::run_prog(&pr, sched::FixedIdx::new(path.clone()), exec::quiet_config(shuttle::MaxSteps::FailAfter(10_000)), opts);
+            println!("   stand-alone re-run of that schedule: {:?}", rr.logs[0].termination);
         }
         for o in r.missing.iter().take(10) {
             println!("MISSING (contracts require reachable, no schedule produces): {}", osc::describe(o));
+        }
+        0
+    } else if args[0] == "--run-path" {
+        // development aid: run one schedule given as comma separated choice indices, print the global log
+        common::install_silent_hook();
+        let p: prog::Prog = serde_json::from_str(&std::fs::read_to_string(&args[1]).unwrap()).unwrap();
+        let path: Vec<usize> = args[2].split(',').filter_map(|x| x.trim().parse().ok()).collect();
+        let prog = std::sync::Arc::new(p);
+        let (r, ex) = exec::run_recorded(&prog, sched::FixedIdx::new(path), exec::quiet_config(shuttle::MaxSteps::FailAfter(10_000)), Default::default());
+        println!("result: {:?}", r.result);
+        for e in &r.logs[0].entries {
+            println!("  T{} op{} {:?} -> {}", e.task, e.pc, prog.tasks[e.task].ops[e.pc], e.obs);
+        }
+        for (_, evs) in &ex {
+            for e in evs {
+                if let sched::Ev::Decision { offered, current, choice, .. } = e {
+                    println!("    decision offered={offered:?} current={current:?} choice={choice:?}");
+                }
+            }
         }
         0
     } else if args[0] == "--c12-child" {
